@@ -16,7 +16,7 @@ CHECKS = {
              'the paths on which the scan of the suffix ran to its end, and the items added are the productions of that rule '
              'at dot 0; goto carries an item over iff it is incomplete and its symbol at the dot is the transition symbol, '
              'with the same production and context and dot + 1; every incomplete item\'s symbol at the dot gets one '
-             'successor per state, computed by goto on that very symbol.',
+             'successor per state, computed by goto on that very symbol. Between its reset and its use the look-ahead set collected for the rule behind the dot only grows.',
         note='Each step is a necessary condition of "accepts exactly L(G)". That the steps compose to the canonical automaton '
              '(after Pager merging: C02) and language equality as such are NOT decided. Related steps are reported under other '
              'properties: closure work-list discipline and FIRST/nullable pairing (C04 R4.4/R4.5), reduce/accept cells (C03), '
@@ -122,7 +122,7 @@ CHECKS = {
              'grammar object that an accessor indexes with a PIdx/TIdx/RIdx are found from the accessors\' MIR; in the constructor '
              'every vector flowing into such a field must end with the length of its class leader (the vector whose len() '
              'becomes prods_len/tokens_len/rules_len): same initial length and pushes in the same straight-line regions, or '
-             'a snapshot of / one push per element of the completed leader.',
+             'a snapshot of / one push per element of the completed leader. The string parse_string assembles chunk by chunk is only appended to inside its scan loop.',
         note='The round-trip clauses of C10 (rules, symbols, precedences, %epp, actions are the ones written in the '
              'source, whatever the layout) are NOT decided beyond the span and table clauses above. Trusted: ' + TB,
         technique='lock-step growth analysis of parallel tables over MIR (accessor-derived index classes, per-region push counting, def-use)',
@@ -138,7 +138,7 @@ CHECKS = {
              '(5) A span built from the length of a piece line[A..] of a rule line starts at that piece (offset of the line + A), on every path. '
              '(6) Regex text is unescaped alike with and without a start-state prefix; the parser\'s list of escapes it passes through '
              'covers every escape form the regex engine interprets; one-character splits drop empty pieces; the inclusive/exclusive '
-             'kind of a start state is the constant of the declaration pattern that matched.',
+             'kind of a start state is the constant of the declaration pattern that matched. No span bound in the .l parser comes from searching for the text of a piece with str::find (first occurrence, not the position of the piece).',
         note='Decides the span-offset clause and the "flags given are the ones in force" clause structurally. Does NOT decide '
              'that rule splitting and escape rewriting denote the right regular language. Trusted: ' + TB,
         technique='def-use provenance of parser inputs + name-agreement check over resolved field indices, callee names and constant strings in MIR',
